@@ -28,6 +28,7 @@ var (
 	Reached = map[string]bool{}
 	Missing []string
 	Notes   []string
+	Died    string // set when a goroutine of the program under test died of an uncaught panic
 )
 
 // Result is what one native replay observed.
@@ -50,6 +51,7 @@ func Begin(model map[string]string) {
 		cex.Model = map[string]string{}
 	}
 	Failed, Missing, Notes = nil, nil, nil
+	Died = ""
 	Reached = map[string]bool{}
 }
 
@@ -58,6 +60,9 @@ func End() Result {
 	mu.Lock()
 	defer mu.Unlock()
 	r := Result{Failed: append([]string{}, Failed...), Missing: Missing, Notes: Notes, Reached: []string{}}
+	if Died != "" {
+		r.Panic = "process died: " + Died
+	}
 	for k := range Reached {
 		r.Reached = append(r.Reached, k)
 	}
@@ -149,14 +154,18 @@ func Assume(c bool) {
 func Assert(c bool, label string) {
 	if !c {
 		mu.Lock()
-		Failed = append(Failed, label)
+		if Died == "" {
+			Failed = append(Failed, label)
+		}
 		mu.Unlock()
 	}
 }
 
 func Reach(label string) {
 	mu.Lock()
-	Reached[label] = true
+	if Died == "" {
+		Reached[label] = true
+	}
 	mu.Unlock()
 }
 
